@@ -35,6 +35,24 @@ CHECKS = {
     text='Generated search over every repeat form, counts 0..5, both directions, nesting to 4, breaks, light lists over 0..8 lights; iteration counts and loop values compared with the documented formulae.',
     design='DESIGN.md section 3, C04',
     note='Trusts the reference interpreter (verif/lang/ref.py, written from docs/language.rst, DESIGN Appendix A), the printer (Appendix B) and the simulated lifxlan boundary; undefined behaviour is discarded and counted, never asserted.'),
+ 'C02': dict(
+    technique='Hypothesis-generated typed expression trees embedded in every legal value position, compared with an independent evaluator; builtin grids against math.*; statistical coverage check for [random a b]',
+    category='exploration',
+    text='Generated search over expression trees (depth <= 6, minimal and redundant parentheses); every ordered pair of adjacent operator classes is required to occur (asserted minimum counts); each tree is observed through up to 13 syntactic positions in one run. random: 300 draws per range, all values must occur and none outside.',
+    design='DESIGN.md section 3, C02',
+    note='Trusts the reference evaluator (Python int/float arithmetic) and the printer; -a^b, % on negatives, sqrt(<0), round ties are not asserted.'),
+ 'C13': dict(
+    technique='Hypothesis rule-based state machine against a dict model with invariants after every step; exhaustive enumeration of all short histories over a 2x2x2 alphabet; SortedList compared with a sorted Python list incl. simulated in-progress iteration',
+    category='exploration',
+    text='Model-based stateful testing of the production LightSet/LifxLanApi over the simulated LAN with a virtual clock; every invariant of the property is evaluated after every step. Short histories are enumerated completely; long ones sampled.',
+    design='DESIGN.md section 3, C13',
+    note='Trusts the dict model in verif/checks/c13.py and the virtual time source substituted for bardolph.controller.light.time.'),
+ 'C17': dict(
+    technique='Hypothesis-generated histories (compile sequences incl. damaged texts; repeated / stopped / reloaded executions; job sequences) compared differentially with fresh objects',
+    category='exploration',
+    text='Differential: the same text or job is observed after a generated history and on fresh objects; any difference in result, error text, listing, trace, time-pattern tables or stdout is a violation. No reference semantics needed, so nothing is discarded.',
+    design='DESIGN.md section 3, C17',
+    note='Trusts the harness reset of simulated device state between runs; crashes during parse are compared by exception type only.'),
 }
 PENDING_REASON = 'check not built yet in this session; planned as described in DESIGN.md (property-based / fuzzing check, same runner)'
 
